@@ -13,6 +13,7 @@ package main
 // dup and mixed also run in the -race build (registry map under contention).
 
 import (
+	"context"
 	"fmt"
 	"sync"
 	"sync/atomic"
@@ -305,7 +306,20 @@ func c10Cycle(c *caseCtx) (res caseResult) {
 	}
 	res.Desc = fmt.Sprintf("cycle respawns=%d senders=%d", k, nS)
 	for round := 0; round < k; round++ {
-		pid := e.Spawn(w.producer(id), "cycle", actor.WithID(id), actor.WithInboxSize(pick(r, 1, 8, 1024)))
+		opts := []actor.OptFunc{actor.WithID(id), actor.WithInboxSize(pick(r, 1, 8, 1024))}
+		cancelUser := func() {}
+		switch r.Intn(4) {
+		case 0: // the context handed to the actor at spawn is the user's own business: cancelled before the spawn
+			uctx, cancel := context.WithCancel(context.Background())
+			cancel()
+			opts = append(opts, actor.WithContext(uctx))
+		case 1: // ... or while the actor runs
+			uctx, cancel := context.WithCancel(context.Background())
+			cancelUser = cancel
+			opts = append(opts, actor.WithContext(uctx))
+		}
+		pid := e.Spawn(w.producer(id), "cycle", opts...)
+		cancelUser()
 		if g := e.Registry.GetPID("cycle", id); g == nil || !g.Equals(pid) {
 			res.violate("round %d: GetPID = %v right after Spawn returned %v", round, g, pid)
 		}
